@@ -113,6 +113,7 @@ def fix_local(v):
 
 
 MUT_CH = list("0123456789abcrpostdevlvx.-_+!*=<>~, \n") + ["ſ", "ı", "İ", "K", "é", "١", "１", " ", "\x00"]
+MUT_CH = MUT_CH + ["(", ")"]       # follow-up round: parentheses (the === text excludes ')', requirement clauses may be parenthesised)
 
 
 def mutate(rng, s, chars=MUT_CH):
